@@ -9,6 +9,7 @@ import mockca
 import tacdrun
 import vlib
 from ext import auditd_c16, auditd_tacd
+from ext import digest_c16
 from ext import idnagen
 
 FINISH = dict(
@@ -43,7 +44,11 @@ FINISH = dict(
          "label / A-label over 63 octets / 254 characters are observed only), ten near misses of acme-tls/1 per "
          "server (must be refused, or served when acme-tls/1 itself is among them), SNI = the A-label / none / "
          "an unrelated name. Observed only (counted, never judged): names that are not domain names, and tacd "
-         "started without -f (it detaches before it reads its values) with the values by option / file / stdin.",
+         "started without -f (it detaches before it reads its values) with the values by option / file / stdin."
+         " Digest octets (ext/digest_c16.py): tokens searched for a SHA-256 starting with 00 (and 00 00) through the "
+         "ordinary path, and chosen digests (00 / 00 00 / 00 00 00 first, all zero, 00..01, 00 80, 00 ff, ff..ff, 7f / 80 / "
+         "01 / ff first, 00 in the middle / last / every other octet) rendered by Jose.proofTlsAlpn (tied to get_proof), by "
+         "option / file / stdin, TCP and unix listeners and the nine source pairs.",
 )
 
 KEYTYPES = ["rsa2048", "ecdsa-p256", "ecdsa-p384", "ecdsa-p521", "ed25519", "ed448", "rsa4096"]
@@ -154,6 +159,7 @@ def run(ctx):
     os.makedirs(scratch)
     try:
         scenarios = build_scenarios(ctx, helper)
+        scenarios += digest_c16.scenarios(ctx, scenarios, KEYTYPES, DIGESTS)
         execute(ctx, scenarios, binary, scratch, helper)
         auditd_c16.observe_daemonised(ctx, scenarios, binary, scratch, helper)
     finally:
@@ -187,6 +193,7 @@ def build_scenarios(ctx, helper, fixed=None):
                       "prelude": "fd-exhaustion" if len(specs) % 9 == 4 else None})
     if not fixed:
         specs += auditd_c16.specs(ctx, len(specs), list(keys), KEYTYPES, DIGESTS)
+        specs += digest_c16.specs(ctx, len(specs), keys, KEYTYPES, DIGESTS)
     pops = [{"op": "proof", "key_pem": keys[s["acct_key"]]["pem"], "token": s["token"], "type": "tls-alpn-01"}
             for s in specs]
     impl = vlib.probe(pops)
